@@ -61,10 +61,12 @@ pub struct KeySet {
     pub payload: [u8; 32],
 }
 
-pub fn keyset(seed: u64, kseed: u64) -> KeySet {
+/// kseed selects sender, ephemeral and payload key; rseed the recipient (so that several
+/// files can be addressed to one recipient).
+pub fn keyset(seed: u64, kseed: u64, rseed: u64) -> KeySet {
     let mut r = Rng::derive(seed, &format!("keyset{}", kseed));
     let s_priv = r.bytes32();
-    let r_priv = r.bytes32();
+    let r_priv = Rng::derive(seed, &format!("recipient{}", rseed)).bytes32();
     let e_priv = r.bytes32();
     let payload = r.bytes32();
     let p = |k: &[u8; 32]| kestrel_crypto::x25519_derive_public(k).expect("derive public");
@@ -79,7 +81,8 @@ pub fn password(seed: u64, kseed: u64, scn: &Value) -> Vec<u8> {
     if let Some(h) = scn.get("password_hex").and_then(|x| x.as_str()) {
         return unhex(h);
     }
-    let mut r = Rng::derive(seed, &format!("password{}", kseed));
+    let _ = kseed;
+    let mut r = Rng::derive(seed, &format!("password{}", ju64_or(scn, "pwseed", 1)));
     let n = r.range(0, 24) as usize;
     r.bytes(n)
 }
@@ -103,7 +106,7 @@ pub fn spec_file(ctx: &Ctx, api: &str, aad: &str, kseed: u64, scn: &Value) -> Sp
             prefix: if aad == "pass" { ctx.t.must("pass_prefix", &Env::new()) } else { ctx.t.must("key_prefix", &Env::new()) },
         },
         "key" => {
-            let k = keyset(ctx.seed, kseed);
+            let k = keyset(ctx.seed, kseed, ju64_or(scn, "rseed", 1));
             let env = Env::new()
                 .b("s_priv", &k.s_priv)
                 .b("s_pub", &k.s_pub)
@@ -155,6 +158,9 @@ pub struct RecVerifier {
     pub covered: u64,
     pub dead: bool, // framing lost (length field beyond the chunk size or beyond the plaintext)
     pub total: u64,
+    /// (ephemeral public key, payload key, file key) recovered from a header whose
+    /// randomness was drawn by the library
+    pub recovered: Option<(Vec<u8>, Vec<u8>, Vec<u8>)>,
 }
 
 impl RecVerifier {
@@ -177,6 +183,7 @@ impl RecVerifier {
             covered: 0,
             dead: false,
             total: 0,
+            recovered: None,
         }
     }
     pub fn feed(&mut self, mut data: &[u8]) {
@@ -307,21 +314,25 @@ pub fn enc_once(ctx: &Ctx, scn: &Value) -> EncOut {
     let aad = jstr_or(scn, "aad", "key");
     let sf = spec_file(ctx, api, aad, kseed, scn);
     let (rs, ws, fs) = scripts(scn, ctx.seed ^ kseed);
-    let limit = ju64_or(scn, "evlimit", 200_000) as usize;
+    // watchdog: far more I/O calls than bytes means the code is spinning
+    let limit = ju64_or(scn, "evlimit", 100_000 + 8 * plen) as usize;
     let log = new_log(limit);
     let mut rd = SReader::new(Source::Gen { seed: pseed, len: plen }, rs, log.clone());
     rd.extra_after_eof = ju64_or(scn, "extra_after_eof", 0);
     let mut wr = SWriter::new(store, Expect::None, ws, fs, log.clone());
     let ver = Rc::new(RefCell::new(RecVerifier::new(&ctx.t, &sf, cs, pseed, plen)));
     let covs: Rc<RefCell<Vec<u64>>> = Rc::new(RefCell::new(Vec::new()));
-    {
+    // inject = false: ephemeral and payload key are left to the library (C07); the output is
+    // then verified after the run by specification-directed opening of the header
+    let inject = scn.get("inject").and_then(|x| x.as_bool()).unwrap_or(true);
+    if inject {
         let v = ver.clone();
         wr.tap = Some(Box::new(move |b: &[u8]| {
             v.borrow_mut().feed(b);
         }));
     }
     // inputs of the call under test are built before heap counting starts
-    let k = keyset(ctx.seed, kseed);
+    let k = keyset(ctx.seed, kseed, ju64_or(scn, "rseed", 1));
     let s_priv = PrivateKey::try_from(&k.s_priv[..]).unwrap();
     let s_pub = PublicKey::try_from(&k.s_pub[..]).unwrap();
     let r_pub = PublicKey::try_from(&k.r_pub[..]).unwrap();
@@ -337,7 +348,8 @@ pub fn enc_once(ctx: &Ctx, scn: &Value) -> EncOut {
     alloc::enable(true);
     let r = catch_unwind(AssertUnwindSafe(|| match api {
         "chunks" => verif_encrypt_chunks(&mut rd, &mut wr, &ckey, &prefix, cs as u32),
-        "key" => key_encrypt(&mut rd, &mut wr, &s_priv, &s_pub, &r_pub, Some(&e_priv), Some(&e_pub), Some(&payload), AsymFileFormat::V1),
+        "key" if inject => key_encrypt(&mut rd, &mut wr, &s_priv, &s_pub, &r_pub, Some(&e_priv), Some(&e_pub), Some(&payload), AsymFileFormat::V1),
+        "key" => key_encrypt(&mut rd, &mut wr, &s_priv, &s_pub, &r_pub, None, None, None, AsymFileFormat::V1),
         "pass" => pass_encrypt(&mut rd, &mut wr, &pw, sl, PassFileFormat::V1),
         _ => panic!("api"),
     }));
@@ -347,6 +359,29 @@ pub fn enc_once(ctx: &Ctx, scn: &Value) -> EncOut {
         Err(_) => "panic",
     };
     drop(r);
+    if !inject {
+        // post-hoc verification with the recovered file key
+        let sink = wr.store.clone().expect("inject=false needs a stored sink");
+        let mut v = ver.borrow_mut();
+        if sink.len() >= 132 {
+            match crate::specread::open_key_header(&ctx.t, &k.r_priv, &k.r_pub, &sink[..132]) {
+                Some(o) => {
+                    let sf2 = SpecFile { header: sink[..132].to_vec(), key: o.file_key.clone(), prefix: sf.prefix.clone() };
+                    *v = RecVerifier::new(&ctx.t, &sf2, cs, pseed, plen);
+                    v.hdr_ok = o.sender_pub == k.s_pub;
+                    v.feed(&sink);
+                    v.recovered = Some((sink[4..36].to_vec(), o.payload.clone(), o.file_key.clone()));
+                }
+                None => {
+                    v.hdr_ok = false;
+                    v.feed(&sink);
+                }
+            }
+        } else {
+            v.hdr_ok = false;
+            v.feed(&sink);
+        }
+    }
     // per-event coverage: recompute by replaying accepted bytes is not possible without the
     // data, so the verifier state after each write was sampled through the tap order: the
     // tap runs inside `write` before the event is pushed, hence covered-after-event equals the
@@ -404,6 +439,114 @@ fn emit_events(lines: &mut Vec<Value>, events: &[Ev], extra: impl Fn(usize, &Ev,
 
 pub fn run_enc(ctx: &Ctx, scn: &Value) -> Vec<Value> {
     let out = enc_once(ctx, scn);
+    enc_lines(ctx, scn, &out)
+}
+
+/// Round trip: encrypt with one schedule, then decrypt what the encryptor wrote with
+/// another.  The decryption's expectation comes from the property (C01/C02): a file the
+/// encryptor produced with success must decrypt to the plaintext (and under another key
+/// or password must be rejected); the layout used for the per-event projections is the
+/// one the record verifier found in the encryptor's output.
+pub fn run_rt(ctx: &Ctx, scn: &Value) -> Vec<Value> {
+    let enc = scn.get("enc").expect("rt.enc");
+    let dec = scn.get("dec").expect("rt.dec");
+    let out = enc_once(ctx, enc);
+    let mut lines = enc_lines(ctx, enc, &out);
+    if out.res != "ok" || out.sink.is_none() {
+        return lines;
+    }
+    let api = jstr(enc, "api");
+    let cs = ju64_or(enc, "cs", 65536);
+    let h: u64 = match api {
+        "key" => 132,
+        "pass" => 36,
+        _ => 0,
+    };
+    let plen = ju64(enc, "plen");
+    let pseed = ju64_or(enc, "pseed", 1);
+    let kseed = ju64_or(enc, "kseed", 1);
+    let wrong_key = dec.get("wrong_key").and_then(|x| x.as_bool()).unwrap_or(false);
+    let sink = out.sink.clone().unwrap();
+    let flen = sink.len() as u64;
+    // layout from the verifier
+    let mut ends = Vec::new();
+    let mut plens = Vec::new();
+    {
+        let v = out.ver.borrow();
+        let mut off = h;
+        let mut good = v.hdr_ok;
+        for r in v.recs.iter() {
+            for _ in 0..r.n {
+                off += 32 + r.len;
+                if !(r.ok && good) {
+                    good = false;
+                }
+                if good {
+                    ends.push(off);
+                    plens.push(r.len);
+                }
+            }
+        }
+    }
+    let mut d = dec.clone();
+    d["api"] = json!(api);
+    d["cs"] = json!(cs);
+    d["aad"] = json!(jstr_or(enc, "aad", "key"));
+    for k in ["rseed", "pwseed", "password_hex"] {
+        if let Some(x) = enc.get(k) {
+            d[k] = x.clone();
+        }
+    }
+    let o = dec_once(ctx, &d, Source::Bytes(sink.clone()), Expect::Gen { seed: pseed, len: plen }, kseed, wrong_key);
+    let auth_n = if wrong_key { 0 } else { ends.len() };
+    let class = if wrong_key { "must_reject" } else { "must_accept" };
+    let mut twin = json!({"used": false, "prefix_ok": true, "res": "n/a"});
+    if has_faults(&d) {
+        let t = dec_once(ctx, &strip_faults(&d), Source::Bytes(sink.clone()), Expect::Gen { seed: pseed, len: plen }, kseed, wrong_key);
+        let ok = match (&o.sink, &t.sink) {
+            (Some(x), Some(y)) => x.len() <= y.len() && x[..] == y[..x.len()],
+            _ => true,
+        };
+        twin = json!({"used": true, "prefix_ok": ok, "res": t.res});
+    }
+    let auth: Vec<Value> = (0..auth_n).map(|j| json!({"end": ends[j], "len": plens[j]})).collect();
+    lines.push(json!({
+        "ev":"begin","op":"dec","api":api,"id":scn.get("id").cloned().unwrap_or(json!("")),
+        "cs":cs,"H":h,"flen":flen,"plen":plen,"class":class,"auth":auth,
+        "twin":twin,"faults":fault_kinds(&d),"heapk":heap_bound(cs, api),
+    }));
+    let lag = 2 * (cs + 32);
+    emit_events(&mut lines, &o.events, |_i, e, j| {
+        let mut authc = 0u64;
+        let mut due = 0u64;
+        for k in 0..auth_n {
+            if ends[k] <= e.consumed {
+                authc += plens[k];
+            }
+            if ends[k] + lag < e.consumed {
+                due += plens[k];
+            }
+        }
+        j["authc"] = json!(authc);
+        j["due"] = json!(due);
+    });
+    let boundary = {
+        let mut s = 0u64;
+        let mut ok = o.accepted == 0;
+        for k in 0..auth_n {
+            s += plens[k];
+            if s == o.accepted {
+                ok = true;
+            }
+        }
+        ok
+    };
+    lines.push(json!({"ev":"end","res":if o.overflow {"hang"} else {o.res},"cons":o.consumed,"acc":o.accepted,
+                      "eofs":o.eof_reads,"late":o.late,"sender_ok":o.sender_ok,"boundary":boundary}));
+    lines
+}
+
+pub fn enc_lines(ctx: &Ctx, scn: &Value, out: &EncOut) -> Vec<Value> {
     let cs = ju64_or(scn, "cs", 65536);
     let api = jstr(scn, "api");
     let h = match api {
@@ -500,6 +643,7 @@ pub fn assemble(srcs: &[SrcFile], file: &Value) -> Assembled {
     let hsrc = ju64_or(file, "hsrc", 0) as usize;
     let hdr = jstr_or(file, "hdr", "ok");
     let mut bytes = srcs[hsrc].sf.header.clone();
+    #[allow(unused_assignments)]
     let mut hdr_ok = true;
     if let Some(rest) = hdr.strip_prefix("flip:") {
         let bit: u64 = rest.parse().unwrap();
@@ -516,11 +660,9 @@ pub fn assemble(srcs: &[SrcFile], file: &Value) -> Assembled {
     let h = bytes.len() as u64;
     let mut ends = Vec::new();
     let mut plens = Vec::new();
-    let mut all_auth = hdr_ok;
-    let mut auth_n = 0usize;
-    let mut ctr_edit = false;
-    let mut last_seen = false;
-    let mut complete_shape = true;
+    let mut opens_v = Vec::new();
+    let mut last_v = Vec::new();
+    let mut ctrok_v = Vec::new();
     let recs = jarr(file, "recs");
     for (j, r) in recs.iter().enumerate() {
         let s = ju64(r, "src") as usize;
@@ -534,25 +676,13 @@ pub fn assemble(srcs: &[SrcFile], file: &Value) -> Assembled {
         rec[0..8].copy_from_slice(&ctrf.to_be_bytes());
         rec[8..12].copy_from_slice(&(flagf as u32).to_be_bytes());
         rec[12..16].copy_from_slice(&(lenf as u32).to_be_bytes());
-        let tam = ji64(&json!({"t": r.get("tam").and_then(|x| x.as_i64()).unwrap_or(-1)}), "t");
+        let tam = r.get("tam").and_then(|x| x.as_i64()).unwrap_or(-1);
         if tam >= 0 {
             flip(&mut rec[16..], tam as u64);
         }
-        let opens = s == hsrc && idx == j && tam < 0 && flagf == last && lenf == plen;
-        if all_auth && opens {
-            auth_n += 1;
-            if ctrf != idx as u64 {
-                ctr_edit = true;
-            }
-            if last_seen {
-                complete_shape = false;
-            }
-            if last == 1 {
-                last_seen = true;
-            }
-        } else {
-            all_auth = false;
-        }
+        opens_v.push(hdr_ok && s == hsrc && idx == j && tam < 0 && flagf == last && lenf == plen);
+        last_v.push(last);
+        ctrok_v.push(ctrf == idx as u64);
         bytes.extend_from_slice(&rec);
         ends.push(bytes.len() as u64);
         plens.push(plen);
@@ -560,27 +690,39 @@ pub fn assemble(srcs: &[SrcFile], file: &Value) -> Assembled {
     let cut = file.get("cut").and_then(|x| x.as_i64()).unwrap_or(-1);
     let trail = ju64_or(file, "trail", 0);
     let full = bytes.len() as u64;
-    if cut >= 0 {
-        bytes.truncate(cut as usize);
-        // records not completely present are not authentic
-        let mut n = 0;
-        for e in ends.iter().take(auth_n) {
-            if *e <= cut as u64 {
-                n += 1;
-            }
+    let truncated = cut >= 0 && (cut as u64) < full;
+    // records completely present (a truncation that removes whole records is the same
+    // bytes as deleting them) and whether a partial record / header remains
+    let mut npresent = 0usize;
+    for e in ends.iter() {
+        if !truncated || *e <= cut as u64 {
+            npresent += 1;
+        } else {
+            break;
         }
-        auth_n = n;
+    }
+    let partial = truncated && ((cut as u64) < h || cut as u64 != if npresent == 0 { h } else { ends[npresent - 1] });
+    let mut auth_n = 0usize;
+    for j in 0..npresent {
+        if opens_v[j] {
+            auth_n += 1;
+        } else {
+            break;
+        }
+    }
+    if truncated {
+        bytes.truncate(cut as usize);
     }
     for i in 0..trail {
         bytes.push(0xA0 ^ (i as u8));
     }
-    let complete = all_auth && auth_n == recs.len() && !recs.is_empty() && last_seen && complete_shape
-        && trail == 0 && (cut < 0 || cut as u64 >= full);
+    let complete = npresent >= 1 && !partial && auth_n == npresent && last_v[npresent - 1] == 1
+        && last_v[..npresent - 1].iter().all(|l| *l == 0) && trail == 0;
     let class = if complete {
-        if ctr_edit {
-            "may_accept"
-        } else {
+        if ctrok_v[..npresent].iter().all(|c| *c) {
             "must_accept"
+        } else {
+            "may_accept"
         }
     } else {
         "must_reject"
@@ -606,14 +748,15 @@ pub fn dec_once(ctx: &Ctx, scn: &Value, f: Source, expect: Expect, kseed: u64, w
     let aad = jstr_or(scn, "aad", "key");
     let store = scn.get("store").and_then(|x| x.as_bool()).unwrap_or(true);
     let (rs, ws, fs) = scripts(scn, ctx.seed ^ kseed ^ 0x77);
-    let limit = ju64_or(scn, "evlimit", 200_000) as usize;
+    let limit = ju64_or(scn, "evlimit", 100_000 + 8 * f.len()) as usize;
     let log = new_log(limit);
     let mut rd = SReader::new(f, rs, log.clone());
     let mut wr = SWriter::new(store, expect, ws, fs, log.clone());
-    let k = keyset(ctx.seed, if wrong_key { kseed + 1000 } else { kseed });
+    let rseed = ju64_or(scn, "rseed", 1);
+    let k = keyset(ctx.seed, kseed, if wrong_key { rseed + 1000 } else { rseed });
     let r_priv = PrivateKey::try_from(&k.r_priv[..]).unwrap();
     let r_pub = PublicKey::try_from(&k.r_pub[..]).unwrap();
-    let ks = keyset(ctx.seed, kseed);
+    let ks = keyset(ctx.seed, kseed, rseed);
     let mut pw = password(ctx.seed, kseed, scn);
     if wrong_key {
         if let Some(h) = scn.get("wrong_password_hex").and_then(|x| x.as_str()) {
@@ -757,6 +900,7 @@ pub fn run_file(ctx: &Ctx, inp: &str, outp: &str) {
         let lines = match jstr(&scn, "op") {
             "enc" => run_enc(ctx, &scn),
             "dec" => run_dec(ctx, &scn),
+            "rt" => run_rt(ctx, &scn),
             x => panic!("op {}", x),
         };
         for l in lines {
